@@ -14,10 +14,11 @@ fn in_image(x: f64, y: f64, eps: f64) -> bool {
 }
 
 /// region: 0 = any image point, 1 = points whose cell lacks a cardinal neighbour (next to a three-cell point)
-fn k_c19_point(depth: u8, region: u8) {
+fn k_c19_point(depth: u8, region: u8, band: u8) {
   let x: f64 = kani::any();
   let y: f64 = kani::any();
   kani::assume(in_image(x, y, 8.881784197001252e-16));
+  kani::assume(match band { 0 => y > 1.0, 1 => y >= -1.0 && y <= 1.0, _ => y < -1.0 });
   unsafe { PLANE = (x.to_bits(), y.to_bits()); }
   let layer = hp::nested::get_or_create(depth);
   let (h, dx, dy) = layer.hash_with_dxdy(0.0, 0.0);
